@@ -344,6 +344,19 @@ func runC08(c *Config, r *Report) {
 	c08R9(ic, r)
 	copiersAlwaysCopy(ic, r, "R08.7")
 	c08R10(ic, r)
+	c08R11(ic, r)
+	c04R20(ic, r, "R08.13")
+	// R08.12: = R05.11: the function value a go statement starts carries a receiver evaluated
+	// when the method value was evaluated (go w.run(out) in a loop over []*worker)
+	{
+		sub := newReport("C05")
+		c05R11(ic, sub)
+		for _, o := range sub.Obls {
+			o.Rule = "R08.12"
+			r.add(o)
+		}
+		r.Errors = append(r.Errors, sub.Errors...)
+	}
 	checkBinPkgOwnership(ic, r, "R08.4")
 	if c.Tier == "thorough" {
 		ic386, err := loadInterp(c, false, "GOARCH=386")
@@ -1605,5 +1618,99 @@ func c08R10(ic *IC, r *Report) {
 	}
 	if n < 2 {
 		r.Errorf("R08.10: only %d status stores found in the two-value receive generator (fast path, slow path, blocking form expected)", n)
+	}
+}
+
+func init() {
+	ruleText["R08.12"] = "= R05.11 shared: a method value carries the receiver evaluated with it, for value and pointer receivers: the goroutine started by go x.m(args) works on the x of the go statement, not on what the variable holds when the goroutine gets to run"
+	ruleText["R08.13"] = "= R04.20 shared: a goroutine argument of interface type, and a value sent on a channel of interface type, hold a copy of the value: the receiver does not follow the sender's variable"
+	ruleText["R08.11"] = "a function value created at run time (function literal given to reflect.MakeFunc) writes only the frame it allocates for its own activation: every store into a data vector inside the literal is rooted at a frame created there by newFrame (or a local alias of its vector) - the call may return in another goroutine, at any time, and the creating frame belongs to the creator"
+}
+
+// c08R11: found through the round-6 report on C08 (E1). The wrapper built by getFunc put the
+// previous content of the literal's frame slot back when the call returned; with go func(){}()
+// the call returns in another goroutine, between the creation of the next closure and its
+// call, so the caller started the previous closure again (and the write raced with the reads
+// of the slot).
+func c08R11(ic *IC, r *Report) {
+	info := ic.Info
+	n := 0
+	for _, name := range sortedKeys(ic.F) {
+		fi := ic.F[name]
+		if fi.Decl.Body == nil {
+			continue
+		}
+		k := 0
+		for _, mk := range callsIn(info, fi.Decl.Body, true, "reflect.MakeFunc") {
+			if len(mk.Args) != 2 {
+				continue
+			}
+			lit, ok := unparen(mk.Args[1]).(*ast.FuncLit)
+			if !ok {
+				continue
+			}
+			k++
+			n++
+			// frames (and aliases of their vectors) created inside the literal
+			own := map[types.Object]bool{}
+			for pass := 0; pass < 3; pass++ {
+				ast.Inspect(lit.Body, func(q ast.Node) bool {
+					as, ok := q.(*ast.AssignStmt)
+					if !ok || len(as.Lhs) != len(as.Rhs) {
+						return true
+					}
+					for i, rh := range as.Rhs {
+						id := identOf(as.Lhs[i])
+						if id == nil {
+							continue
+						}
+						if c, ok := unparen(rh).(*ast.CallExpr); ok && isCallTo(info, c, "interp.newFrame") {
+							own[info.ObjectOf(id)] = true
+						}
+						if root := rootIdent(rh); root != nil && own[info.ObjectOf(root)] {
+							if _, isCall := unparen(rh).(*ast.CallExpr); !isCall {
+								own[info.ObjectOf(id)] = true
+							}
+						}
+					}
+					return true
+				})
+			}
+			var bad []string
+			ast.Inspect(lit.Body, func(q ast.Node) bool {
+				as, ok := q.(*ast.AssignStmt)
+				if !ok {
+					return true
+				}
+				for _, l := range as.Lhs {
+					ix, ok := unparen(l).(*ast.IndexExpr)
+					if !ok {
+						continue
+					}
+					if t := info.TypeOf(ix.X); t == nil || types.TypeString(t, nil) != "[]reflect.Value" {
+						continue
+					}
+					root := rootIdent(ix.X)
+					if root != nil && own[info.ObjectOf(root)] {
+						continue
+					}
+					// a vector made in the literal (results, arguments)
+					if root != nil {
+						if o := info.ObjectOf(root); o != nil && o.Pos() > lit.Pos() && o.Pos() < lit.End() {
+							if v := selField(info, ix.X); v == nil {
+								continue
+							}
+						}
+					}
+					bad = append(bad, types.ExprString(l)+" at "+ic.pos(as.Pos()))
+				}
+				return true
+			})
+			r.Check(len(bad) == 0, "R08.11", fmt.Sprintf("%s/callback#%d/writes-only-its-own-frame", name, k), ic.pos(lit.Pos()), "every slot written by the callback belongs to the frame it allocates",
+				"the function value built by "+name+" stores into "+strings.Join(bad, ", ")+", a slot of a frame it did not create: the store happens when the call runs - for go func(){...}() in another goroutine, at any moment - so it races with the creator's own use of the slot and can put an older value back (the caller then starts the previous closure again: in a loop of go func(){ res[x]++ }() some elements are incremented twice and others never)")
+		}
+	}
+	if n < 2 {
+		r.Errorf("R08.11: only %d function literals given to reflect.MakeFunc found", n)
 	}
 }
